@@ -7,6 +7,41 @@
 #include <occa/internal/utils/string.hpp>
 
 namespace occa {
+  // Type an integer literal the way C and C++ do: the first type of
+  //   int, unsigned int, long, unsigned long
+  // that is allowed by the base and the suffix and can represent the value
+  // (unsigned types are only candidates for non-decimal literals or with a u suffix)
+  static primitive typedIntegerLiteral(const uint64_t value,
+                                       const bool isDecimal,
+                                       const bool isNegative,
+                                       const bool isUnsigned,
+                                       const int longs) {
+    const uint64_t signedValue = (isNegative ? ((~value) + 1) : value);
+
+    if (isUnsigned) {
+      if (!longs && (value <= (uint64_t) UINT32_MAX)) {
+        return primitive((uint32_t) signedValue);
+      }
+      return primitive((uint64_t) signedValue);
+    }
+
+    // -2147483648 fits in an int32_t, 2147483648 doesn't
+    const uint64_t int32Max = ((uint64_t) INT32_MAX) + (isNegative ? 1 : 0);
+    const uint64_t int64Max = ((uint64_t) INT64_MAX) + (isNegative ? 1 : 0);
+    if (!longs) {
+      if (value <= int32Max) {
+        return primitive((int32_t) signedValue);
+      }
+      if (!isDecimal && !isNegative && (value <= (uint64_t) UINT32_MAX)) {
+        return primitive((uint32_t) value);
+      }
+    }
+    if (value <= int64Max) {
+      return primitive((int64_t) signedValue);
+    }
+    return primitive((uint64_t) signedValue);
+  }
+
   primitive::primitive(const char *c) {
     *this = load(c);
   }
@@ -67,9 +102,9 @@ namespace occa {
         loadedFormattedValue = true;
 
         if (C == 'B') {
-          p = primitive::loadBinary(++c, negative);
+          p = primitive::loadBinary(++c);
         } else if (C == 'X') {
-          p = primitive::loadHex(++c, negative);
+          p = primitive::loadHex(++c);
         }
 
         if (p.type & primitiveType::none) {
@@ -127,20 +162,8 @@ namespace occa {
     }
 
     if (loadedFormattedValue) {
-      // Hex and binary only handle U, L, and LL
-      if (longs == 0) {
-        if (unsigned_) {
-          p = p.to<uint32_t>();
-        } else {
-          p = p.to<int32_t>();
-        }
-      } else if (longs >= 1) {
-        if (unsigned_) {
-          p = p.to<uint64_t>();
-        } else {
-          p = p.to<int64_t>();
-        }
-      }
+      // Hex and binary literals were loaded as unsigned magnitudes
+      p = typedIntegerLiteral(p.to<uint64_t>(), false, negative, unsigned_, longs);
     } else {
       // Handle the multiple other formats with normal digits
       if (decimal || float_) {
@@ -150,20 +173,20 @@ namespace occa {
           p = (double) occa::parseDouble(std::string(c0, c - c0));
         }
       } else {
-        uint64_t value_ = parseInt(std::string(c0, c - c0));
-        if (longs == 0) {
-          if (unsigned_) {
-            p = (uint32_t) value_;
-          } else {
-            p = (int32_t) value_;
-          }
-        } else if (longs >= 1) {
-          if (unsigned_) {
-            p = (uint64_t) value_;
-          } else {
-            p = (int64_t) value_;
-          }
+        // parseInt truncates to the suffix type, accumulate the digits here
+        //   (a leading 0 marks an octal literal)
+        const char *cDigit = c0;
+        while (!(('0' <= *cDigit) && (*cDigit <= '9'))) {
+          ++cDigit;
         }
+        const bool isOctal = (*cDigit == '0');
+        const uint64_t base = isOctal ? 8 : 10;
+        uint64_t value_ = 0;
+        while (('0' <= *cDigit) && (*cDigit <= '9')) {
+          value_ = (base * value_) + (uint64_t) (*cDigit - '0');
+          ++cDigit;
+        }
+        p = typedIntegerLiteral(value_, !isOctal, negative, unsigned_, longs);
       }
     }
 
